@@ -312,6 +312,15 @@ def run_scenario(sc: dict, d: str, stub: str, scale: float = 1.0) -> dict:
                 early_exit=bool(sc.get("early_exit")), cache_solver=bool(sc.get("cache_solver")))
     if sc.get("threads"):
         over["solver_threads"] = sc["threads"]
+    if sc.get("fs_fault"):
+        # file-system fault at the point where halmos saves a failed query for debugging: regular files sit where it
+        # wants to create the sibling directories `<dump dir>-timeout` / `<dump dir>-error`
+        dd = os.path.join(d, tag + "_dump")
+        os.makedirs(dd, exist_ok=True)
+        for sfx in ("timeout", "error"):
+            with open(os.path.join(dd, f"check_t0-{sfx}"), "w") as f:
+                f.write("in the way\n")
+        over["dump_smt_directory"] = dd
     t0 = time.time()
     o = e2e.run(spec, **over)
     dt = time.time() - t0
